@@ -214,6 +214,8 @@ func legalCases(defs []cmdDef, thorough bool) []legalCase {
 			if cfg.utf8 || cfg.rev2 {
 				enables = append(enables, "UTF8=ACCEPT")
 			}
+			// the client asks for UTF8=ACCEPT but the server does not grant it (empty ENABLED)
+			enables = append(enables, "UTF8=ACCEPT!declined")
 			if cfg.rev2 {
 				enables = append(enables, "IMAP4rev2")
 			}
@@ -278,6 +280,9 @@ func legalBody(lc legalCase, defs []cmdDef) func() interface{} {
 		srv.Respond = func(c *vimap.Cmd) string {
 			switch c.Name {
 			case "ENABLE":
+				if strings.HasSuffix(lc.Enable, "!declined") {
+					return "* ENABLED\r\n" + c.Tag + " OK done\r\n"
+				}
 				return "* ENABLED " + lc.Enable + "\r\n" + c.Tag + " OK done\r\n"
 			case "CAPABILITY":
 				return "* CAPABILITY IMAP4rev1\r\n" + c.Tag + " OK done\r\n"
@@ -290,7 +295,7 @@ func legalBody(lc legalCase, defs []cmdDef) func() interface{} {
 			return []problem{{"engine:greeting", err.Error()}}
 		}
 		if lc.Enable != "" {
-			if _, err := c.Enable(imap.Cap(lc.Enable)).Wait(); err != nil {
+			if _, err := c.Enable(imap.Cap(strings.TrimSuffix(lc.Enable, "!declined"))).Wait(); err != nil {
 				return []problem{{"engine:enable", err.Error()}}
 			}
 		}
